@@ -7,6 +7,7 @@ import (
 	"flag"
 	"fmt"
 	"os"
+	"path/filepath"
 	"sort"
 	"strings"
 	"time"
@@ -223,6 +224,43 @@ func runMain(args []string) {
 		rep.Samples = append(rep.Samples, hx(set.list[(i*len(set.list))/8]))
 	}
 	runCompare(*prop, cfg.kinds, set.list, *seed, *driver, true, cfg.oracle, rep)
+	// long members, implementation side only: the theorems hold for every length (C03ws: any
+	// whitespace run in a slot; C13c: any '<'-free text in front of a vector), the enumerated
+	// families are short.  A size guard or a size-dependent path shows here.
+	if *prop == "C03" || *prop == "C04" {
+		var long []string
+		pad := []int{70000, 300000, 1000000}
+		if *prop == "C03" {
+			g := loadGrammar(filepath.Join(*verif, "grammar", "sqli_grammar.txt"))
+			for i := 0; i < 12 && len(g) > 0; i++ {
+				t := g[r.intn(len(g))]
+				n := pad[i%3]
+				w := []string{" ", "\t", "\n", " \t"}[i%4]
+				first := true
+				long = append(long, instantiate(t, func() string {
+					if first {
+						first = false
+						return strings.Repeat(w, n/len(w))
+					}
+					return " "
+				}))
+			}
+		} else {
+			for i, v := range []string{"<script>alert(1)</script>", "<svg/onload=alert(1)>", "<a href=javascript:alert(1)>", "<iframe>"} {
+				n := pad[i%3]
+				long = append(long, strings.Repeat("x", n)+v, strings.Repeat("hello world ", n/12)+v, "x>"+v+strings.Repeat(" tail", n/5))
+			}
+		}
+		lrep := &runReport{}
+		runCompare(*prop, "", long, *seed, *driver, false, true, lrep)
+		rep.OracleEvals += lrep.OracleEvals
+		rep.NOracleFails += lrep.NOracleFails
+		for _, f := range lrep.OracleFails {
+			f.Input = clip(f.Input, 200)
+			rep.OracleFails = append(rep.OracleFails, f)
+		}
+		rep.Extra = map[string]any{"long_members": len(long)}
+	}
 	// long structured inputs, implementation side only (C01/C02: outcome; the theorem covers all lengths)
 	if *prop == "C01" || *prop == "C02" {
 		n := 65536
